@@ -317,6 +317,10 @@ def corpus():
     add("ip6-rs", eth(0x86dd, ip6(58, icmp6(133, 0, cat(b"\0\0\0\0", ndopt(1, MAC_A))))))
     add("ip6-ra", eth(0x86dd, ip6(58, icmp6(134, 0, cat(H(bytes([64, 0xc0]) + struct.pack("!HII", 1800, 0, 0)), ndopt(1, MAC_A), ndopt(5, b"\0\0" + struct.pack("!I", 1500)),
                                                          ndopt(3, bytes([64, 0xc0]) + struct.pack("!III", 86400, 14400, 0) + IP6_A), ndopt(24, b"\0" * 6))))))
+    for nm, fl in (("m", 0x80), ("o", 0x40), ("none", 0x00)):
+        add("ip6-ra-" + nm, eth(0x86dd, ip6(58, icmp6(134, 0, cat(H(bytes([255, fl]) + struct.pack("!HII", 9000, 1, 2)), ndopt(5, b"\0\0" + struct.pack("!I", 1280)))))))
+    for nm, fl in (("r", 0x80), ("s", 0x40), ("o", 0x20)):
+        add("ip6-na-" + nm, eth(0x86dd, ip6(58, icmp6(136, 0, cat(bytes([fl, 0, 0, 0]) + IP6_B, ndopt(2, MAC_B))))))
     add("ip6-unreach", eth(0x86dd, ip6(58, icmp6(1, 4, cat(b"\0\0\0\0", ip6(17, udp(1, 2, b"q")))))))
     add("ip6-toobig", eth(0x86dd, ip6(58, icmp6(2, 0, cat(struct.pack("!I", 1280), ip6(17, udp(1, 2, b"q")))))))
     add("ip6-timeex", eth(0x86dd, ip6(58, icmp6(3, 0, cat(b"\0\0\0\0", ip6(17, udp(1, 2, b"q")))))))
